@@ -405,37 +405,110 @@ register(Unit('tools.write_lines', TL, 'write_lines', _write_lines_unit(),
               linkage=[('concepts.tools.write_lines', None)]))
 
 
+def _chunk_loop(trace, pos, n, block):
+    """LoopSpec of THE loop that feeds a file to a consumer chunk by chunk, whichever way it is spelled:
+         for data in iter(partial(f.read, size), b''): use(data)                  (ghost index k of the iterable = reads done)
+         while True: data = f.read(size); if data == b'': break; use(data)        (ghost read position of the file)
+         while data := f.read(size): use(data)
+    The clause is about the sequence of chunks READ (the ghost position `pos['t']` of the file object), not about the loop statement:
+      invariant   trace = (trace at loop entry) ++ [block(t) | t < reads done]   and   reads done <= number of chunks
+      step        an iteration that is completed appends exactly block(c) for the c-th read and performs exactly that one read
+    A path that leaves the loop by `break` continues in the state at the break (engine: exec_while); the postcondition then needs
+    reads done = number of chunks there, i.e. the break must sit on the read that returned b''."""
+    st = {}
+
+    def inv(e, k=None, phase=None):
+        p = e._path
+        if phase == 'entry':
+            st['prefix'] = list(trace.segs)
+            if k is not None:
+                return []
+            # a `while` spelling: nothing was read before the loop, so the chunks read are the chunks of the file from its start
+            return [('reads-so-far-within-the-file', And(pos['t'] == 0, 0 <= n))]
+        if phase == 'assume':
+            c = st['c'] = k if k is not None else p.fresh_int('reads')
+            if k is None:
+                pos['t'] = c
+            trace.segs[:] = st['prefix'] + [('many', c, block)]
+            st['head'] = list(trace.segs)
+            return [] if k is not None else [('reads-so-far-within-the-file', And(0 <= c, c <= n))]
+        head = st['head']
+        kept = len(trace.segs) >= len(head) and all(x is y for x, y in zip(trace.segs, head))
+        new = trace.segs[len(head):]
+        exp = block(st['c'])
+        ok = kept and len(new) == len(exp) and all(s_[0] == 'one' for s_ in new)
+        fs = [BoolVal(ok), pos['t'] == st['c'] + 1]
+        if ok:
+            from contracts import formats_lines as FL
+            fs += [FL.same(p, s_[1], x) for s_, x in zip(new, exp)]
+        out = [('iteration-k-appends-exactly-its-lines', And(*fs))]
+        if k is None:
+            out.append(('reads-so-far-within-the-file', pos['t'] <= n))
+        return out
+    return LoopSpec(inv, phased=True)
+
+
 def _sha256sum_unit():
     def make():
         from contracts import formats_lines as FL
 
         def harness(path):
             I = IntSort()
-            chunk = _opaque_item(Function('chunk', I, I), 'bytes')
+            chunkfn = Function('chunk', I, I)
             n = Int('number_of_chunks')
             path.assume(n >= 0)
             rec, trace = Rec(), FL.Trace()
             f = file_object()
             env, given = {'filepath': arg('filepath')}, {}
             optional(path, env, given, 'bufsize')
-            cur = {}
+            # ghost state of the file object: the number of reads done.  ASSUMED (io, external): the t-th f.read(bufsize) of a file
+            # with `n` chunks returns chunk(t), which is b'' (empty, false) exactly for t >= n -- "the next at most bufsize bytes, b''
+            # exactly at the end of the file"
+            pos = {'t': IntVal(0), 'handed_to_iter': False, 'fresh': False}
+
+            def is_empty_literal(v):
+                return isinstance(v, ObjV) and v.cls == 'bytes' and getattr(v, 'value', None) == b''
+
+            def chunk(t):
+                o = ObjV('bytes', {}, name='chunk(%s)' % t)
+                o.ident = chunkfn(t)
+                o.read_index = t
+                o.truth_fn = lambda: t < n
+
+                def eq(p, a, k):
+                    if not is_empty_literal(a[1]):
+                        raise Unsupported("a chunk compared with something else than b''")
+                    return BoolV(t >= n)
+                o.fields['__eq__'] = FuncV('bytes.__eq__', eq)
+                return o
 
             def read(p, a, k):
+                if pos['handed_to_iter'] and not pos['fresh']:
+                    raise Unsupported('f.read outside the one call per item made by iter(callable, sentinel)')
+                pos['fresh'] = False
                 ok = not k and len(a) == 1 and (a[0] is given['bufsize'] if 'bufsize' in given else isinstance(a[0], IntV))
                 p.oblige('read/one-chunk-of-at-most-bufsize-bytes', 'call',
                          (BoolVal(True) if 'bufsize' in given else a[0].t == 32768) if ok else BoolVal(False))
-                return chunk(cur['k'])
+                t = pos['t']
+                pos['t'] = t + 1
+                return chunk(t)
             f.fields['read'] = FuncV('f.read', read)
 
             def iter_(p, a, k):
-                # ASSUMED: f.read(n) returns the next at most n bytes, b'' exactly at the end of the file; so iter(read-n, b'') gives the
-                # successive non-empty chunks of the file, each obtained by ONE call of the callable
-                if k or len(a) != 2 or not (isinstance(a[1], ObjV) and a[1].cls == 'bytes' and getattr(a[1], 'value', None) == b''):
+                # ASSUMED: iter(callable, sentinel) calls the callable ONCE per item and stops at the first result equal to the sentinel;
+                # with the read contract above iter(read-n, b'') gives the successive non-empty chunks of the file
+                if k or len(a) != 2 or not is_empty_literal(a[1]):
                     raise Unsupported("no contract for iter() other than iter(callable, b'')")
+                if not (is_expr(pos['t']) and pos['t'].eq(IntVal(0))) or pos['handed_to_iter']:
+                    raise Unsupported('iter(callable, b"") after an earlier read of the file')
+                pos['handed_to_iter'] = True
 
                 def at(t):
-                    cur['k'] = t
-                    return p.interp.call(a[0], [], {})
+                    pos['t'], pos['fresh'] = t, True
+                    r = p.interp.call(a[0], [], {})
+                    if not (isinstance(r, ObjV) and getattr(r, 'read_index', None) is t):
+                        raise Unsupported('the callable handed to iter() does not return the chunk it reads')
+                    return r
                 return IterV(at, n, 'iter(read, b"")')
             h = ObjV('hash', {'update': FuncV('h.update', lambda p, a, k: trace.one(a[0] if len(a) == 1 and not k else TupleV(a)) or NONE),
                               'hexdigest': rec.fn('h.hexdigest'), 'digest': rec.fn('h.digest')}, name='h')
@@ -455,7 +528,7 @@ def _sha256sum_unit():
                 path.oblige('post/returns-the-hex-digest', 'post', BoolVal(outcome[1] is rec.calls[2][3]))
                 path.oblige('post/file-closed', 'post', BoolVal(closed(f)))
             loops = FL.base_loops(g)
-            loops[0] = FL.emit_loop(trace, lambda k: [chunk(k)])
+            loops[0] = _chunk_loop(trace, pos, n, lambda k: [chunk(k)])
             return env, loops, finish
         return bits.axioms(), harness
     return make
